@@ -160,7 +160,9 @@ func (s *v4Server) ResetLeases(leases []*dhcpsvc.Lease) (err error) {
 	s.leases = nil
 
 	for _, l := range leases {
-		if !l.IsStatic {
+		if !l.IsStatic && l.Hostname != "" {
+			// Don't generate hostnames for the leases that have none, since
+			// those may clash with the stored hostnames of other leases.
 			l.Hostname = s.validHostnameForClient(l.Hostname, l.IP)
 		}
 		err = s.addLease(l)
@@ -740,6 +742,10 @@ func (s *v4Server) commitLease(l *dhcpsvc.Lease, hostname string) {
 		if prev == "" {
 			// The lease is just allocated due to DHCPDISCOVER.
 			hostname = aghnet.GenerateHostname(l.IP)
+			if _, ok = s.hostsIndex[hostname]; ok {
+				// The generated hostname is taken as well.
+				hostname = ""
+			}
 		} else {
 			hostname = prev
 		}
